@@ -39,28 +39,38 @@ PROPS["C10"] = dict(
           "distinct (op, leading argument characters)"),
     tolerances={"strings (Encode, str, GeoCoords representations), hemisphere flag, accept/reject, lookup index": "exact (model = implementation)",
                 "Decode / val value": "bit-equal to the model, else within 2^-50·Σ|pieces| of the exact rational ±(d+m/60+s/3600) (drift, not an alarm)",
-                "Encode→Decode and str→val round trip": "half a unit of the last printed digit + 4 ulp, same sign / hemisphere",
+                "Encode→Decode and str→val round trip": "half a unit of the last printed digit + 4 ulp, same sign / hemisphere (theorem roundtrip_bound: 1/2 unit + 2^-53 + 4*2^-53*(|x| + …))",
                 "printed fields re-assembled": "half a unit of the last printed digit + 2 ulp; minutes, seconds < 60; azimuth in [0, 360] (closed, finding F7)",
                 "documented forms": "4 ulp of Σ|pieces| around the closed form evaluated in 80-bit arithmetic",
                 "GeoCoords round trips": "half a unit of the last printed digit (+ 4 ulp); same zone; same hemisphere unless within the printed resolution of the equator",
                 "tools": "#output lines = #input lines, ERROR prefix on listed-malformed lines only, exit status ≠ 0 iff an ERROR line, GeoConvert output re-accepted"},
-    level_text=("Theorems (integer / byte level, all inputs): the carry logic of Encode (splitFields: minutes and seconds < 60, fields re-assemble to the "
+    level_text=("Theorems (byte / integer level, all inputs): the carry logic of Encode (splitFields: minutes and seconds < 60, fields re-assemble to the "
                 "rounded count, azimuth count ≤ 360 units gives degrees ≤ 360 with zero minutes/seconds at 360); Utility::lookup never matches NUL and "
                 "inverts the extracted tables; slot bookkeeping of InternalDecode (a number followed by d, ' or \" lands in the slot the indicator names, "
                 "also when components are skipped; ':' and a trailing number use the next expected slot; order/repetition/fourth component errors); "
-                "hemisphere and sign rules (repeated / contradictory letters, sign before a leading letter, letter flags); DecodeLatLon flag assignment "
-                "and the |lat| > 90 rejection; a piece containing a NUL or any byte outside the alphabet is rejected; the pieces of a sum re-assemble the "
-                "text and each later piece starts with a sign; every encoder field layout (digits d digits ' digits[.digits] \" with optional sign or "
-                "hemisphere letter, and the ':' form) is parsed by the discrete stage into exactly its three numbers, sign and flag. The byte-level "
-                "executable model (replace table, trimming, splitting, state machine, exact strtod and %.*f) is compared exactly with the implementation "
-                "on every sampled input; round trips, normalisation, documented meanings, rejection of malformed text, GeoCoords closures and the "
-                "tools' line contract are oracles on the implementation. Partial: the half-unit round-trip bound is an oracle plus an exact per-sample "
-                "check, not a theorem (needs RoundSpec for round53); iostream behaviour is modelled, not verified."),
+                "DecodeLatLon flag assignment and the |lat| > 90 rejection. CLOSURE formatter ⊆ parser (new): fmtFixed_shape (%.*f of any finite value is "
+                "[-]digits[.digits] with exactly p decimals and the values N div 10^p, N mod 10^p of the rounded count N), encode_in_grammar (for EVERY "
+                "finite binary64, trailing DEGREE/MINUTE/SECOND, every precision after clamping, flags NONE/LATITUDE/LONGITUDE/AZIMUTH and every separator "
+                "byte the output of the model encode is [-] D [d M [' S]] [.F] [' or \"] [S|N|W|E] with non-empty all-digit strings, exactly clampPrec "
+                "fraction digits, zero fill included, sign only without flag, letter only for LATITUDE/LONGITUDE and chosen by the sign, the strings "
+                "denoting the numbers encFields = degrees incl. carry, minutes, seconds, fraction units), grammar_all (every such text, indicator or ':' "
+                "style, with or without fraction, is parsed by the component loop into exactly its three numbers), decode_encode / grammar_decodes "
+                "(Decode of such a text through the whole pipeline replaceAll, trim, pieces, strip, comps is the numeric stage evalSlots on the printed "
+                "fields added to -0, with the sign the encoder wrote and the flag of the hemisphere class), plain_text_untouched. NUL (new, full statement): "
+                "decode_nul_rejected — Decode s is an error whenever a NUL byte occurs in s (each stage keeps the NUL inside a piece, the component loop "
+                "rejects it, nummatch does not match it). SUMS (new): pieces_at_signs, decode_sum (a string of signed pieces decodes to the left-to-right "
+                "correctly rounded binary64 sum ((-0 + x1) + x2) + … of the pieces' values with the flags combined; an error in a piece is an error of "
+                "the sum), hemisphere_repeated, sign_after_hemisphere, sign_with_trailing_hemisphere, internal_sign_rejected. Utility::str/val (new): "
+                "str_val_nonfinite (nan, inf, -inf round-trip at every precision), str_val_reads_units (val reads back exactly the printed count of "
+                "units, correctly rounded, with the sign of x). ROUND TRIP (new; rational error bounds over the exact binary64 model from the IsRN / RoundSpec rounding theory): fixedUnits_half_unit (the one decimal rounding of %.*f is within half a unit), encode_value_bound (for every representable finite x, flag other than AZIMUTH: encodeHead splits off the whole degrees exactly, computes the fractional part exactly, multiplies by scale = 1/60/3600 with one binary64 rounding and rounds once half-even to units of 10^-prec; printed value within 1/2*10^-prec/scale + 2^-53 of |x|, for DEGREE without the 2^-53), encode_units_le_degree, decode_value_bound (slots with degrees < 2^41, minutes and seconds < 60, at most 15 decimals: evalSlots succeeds, result within 4*2^-53*V of +-V, V = d + m/60 + s/3600 exact; integer digits accumulate exactly, strtod / the sum / the division one correct rounding each), roundtrip_bound (|x| < 2^40, DEGREE/MINUTE/SECOND, every precision, flags NONE/LATITUDE/LONGITUDE, separator none or ':': Decode(Encode x) succeeds with the hemisphere-class flag and |y - x| <= B + 4*2^-53*(|x| + B), B = 1/2*10^-prec/scale + 2^-53), roundtrip_bound_azimuth (EVERY binary64 x, flag AZIMUTH: Encode prints the reduced angle x' = AngNormalize x, +360 with one rounding if negative, x' in [0,360]; Decode gives flag NONE and a value within the same bound of x'), str_val_roundtrip (|x| <= 2^52, p <= 30: val(str x p) succeeds, |y - x| <= 1/2*10^-p + 2^-53*(|x| + 1)). "
+                "The byte-level executable model (replace table, trimming, splitting, state machine, exact strtod and %.*f) is compared exactly with the "
+                "implementation on every sampled input; round trips, normalisation, documented meanings, rejection of malformed text, GeoCoords closures "
+                "and the tools' line contract are oracles on the implementation. Not proved: the round-trip bound for |x| >= 2^40 with the flags NONE/LATITUDE/LONGITUDE (for >= 2^53 degrees it is false for the code as it is: open finding F33); decode_encode for separators other than none and ':' (Decode does not read them back); the 4-argument Encode overload and DecodeLatLon/GeoCoords compositions are correspondence only; that glibc strtod / printf and libstdc++ num_get behave as modelled is an assumption validated by the exact correspondence; iostream behaviour is modelled, not verified."),
     level_note=("replace table of DMS::Decode (43 ordered (pattern, char) pairs), hemispheres_/signs_/digits_/dmsindicators_, the flag and component enums and "
                 "Math::dm/ms/ds are regenerated from DMS.cpp/DMS.hpp/Math.hpp on every run; hand-written model of the control flow; strtod/printf are "
                 "modelled as correctly rounded / exact (glibc), libstdc++ num_get overflow → DBL_MAX; GeoConvert.cpp and GeodSolve.cpp are compiled "
                 "from the current tree into the harness (their main under a namespace) and run in-process on redirected cin/cout"),
-    technique="Lean 4 proof over the byte/integer-level model (induction, omega, decide over the extracted tables) + exact model/implementation correspondence",
+    technique="Lean 4 proof over the byte/integer-level model (induction, omega, decide over the extracted tables) and over the exact binary64 model with the IsRN / RoundSpec rounding theory (rational error bounds) + exact model/implementation correspondence",
     assumptions=["glibc strtod is correctly rounded and printf %.*f is exact round-half-even (validated by the correspondence on every run)",
                  "std::istringstream >> double accepts exactly the modelled syntax (validated likewise)"],
 )
